@@ -16,6 +16,7 @@ import (
 	"github.com/openGemini/openGemini/lib/config"
 	"github.com/openGemini/openGemini/lib/index"
 	"github.com/openGemini/openGemini/lib/logger"
+	"github.com/openGemini/openGemini/lib/syscontrol"
 	"github.com/openGemini/openGemini/lib/util/lifted/influx/influxql"
 	"github.com/openGemini/openGemini/lib/util/lifted/influx/meta"
 	"github.com/openGemini/openGemini/lib/util/lifted/influx/query"
@@ -79,10 +80,12 @@ type env struct {
 	sib    *ix
 	sibDel *ix
 	sibSeq uint64
+	store    bool // persistent index cache on
+	restarts int
 }
 
 func newEnv(dir string) (*env, error) {
-	e := &env{dir: dir, clock: 1, now: 1000}
+	e := &env{dir: dir, clock: 1, now: 1000, store: curStore}
 	if err := os.MkdirAll(dir, 0o750); err != nil {
 		return nil, err
 	}
@@ -174,9 +177,63 @@ func (e *env) reopen() error {
 // restart: the process ends and starts again dt (virtual) seconds later: same logical clock
 // (no clock file, see LoadLogicalClock), sequence seeded from the wall clock again.
 func (e *env) restart(dt uint64) error {
+	// with the persistent index cache on, every other restart starts from the cache files of the
+	// close before this one (what a start after a crash finds: the index is newer than the cache)
+	var stale map[string]string
+	if e.store && e.restarts%2 == 1 {
+		stale = map[string]string{}
+		for _, name := range []string{tsi.SeriesKeyToTSIDCacheName, tsi.TSIDToSeriesKeyCacheName, tsi.TagKeyToTagValueCacheName} {
+			src := filepath.Join(e.dir, "main", name)
+			if _, err := os.Stat(src); err == nil {
+				dst := filepath.Join(e.dir, "stale-"+name)
+				_ = os.RemoveAll(dst)
+				if err := copyTree(src, dst); err != nil {
+					return err
+				}
+				stale[src] = dst
+			}
+		}
+	}
+	e.restarts++
 	e.closeAll()
+	for src, dst := range stale {
+		_ = os.RemoveAll(src)
+		if err := copyTree(dst, src); err != nil {
+			return err
+		}
+	}
 	e.now += dt
 	return e.openMain()
+}
+
+func copyTree(src, dst string) error {
+	return filepath.Walk(src, func(p string, info os.FileInfo, err error) error {
+		if err != nil {
+			return err
+		}
+		rel, _ := filepath.Rel(src, p)
+		target := filepath.Join(dst, rel)
+		if info.IsDir() {
+			return os.MkdirAll(target, 0o750)
+		}
+		b, err := os.ReadFile(p)
+		if err != nil {
+			return err
+		}
+		return os.WriteFile(target, b, 0o640)
+	})
+}
+
+var curBF, curStore = false, false
+
+// setIndexMode switches the bloom filter of the series-key lookup and the persistent index cache
+// (both off by default) for the indexes opened from now on. Neither may change any answer.
+func setIndexMode(bf, store bool) {
+	config.SetIndexConfig(&config.Index{CacheCompressEnable: true, BloomFilterEnabled: bf})
+	if store != curStore {
+		syscontrol.SetIndexReadCachePersistent(store)
+	}
+	curBF, curStore = bf, store
 }
 
 func (e *env) ensureDel() error {
